@@ -648,6 +648,17 @@ def run(ctx):
     if not drv or not impl:
         return
 
+    # --- sanity of the trusted tinyxml2 stand-in (parse rules, error ids, line numbers, printer layout)
+    try:
+        shim = os.path.join(common.VERIF, "harness", "stubs", "tinyxml2")
+        st = common.build.build_harness(os.path.join(shim, "selftest.cc"), "c37_shim_selftest",
+                                        extra=("-I" + shim, os.path.join(shim, "tinyxml2.cc")), link_lib=False,
+                                        deps=[os.path.join(shim, "tinyxml2.cc"), os.path.join(shim, "tinyxml2.h")])
+        rr = common.sh([st])
+        ctx.oblige("self-test of the tinyxml2 stand-in", "trusted-base-selftest", rr.returncode == 0, (rr.stdout + rr.stderr)[-600:])
+    except RuntimeError as e:
+        ctx.oblige("self-test of the tinyxml2 stand-in", "trusted-base-selftest", False, str(e))
+
     # --- constructor tie: Print of the model-built tree == mj_printSchema
     _, om, _ = ctx.run_lines([drv], ["table", "print"])
     _, oi, _ = ctx.run_lines([impl], ["schema"])
@@ -770,12 +781,22 @@ def run(ctx):
         docs.append({"root": None, "kind": desc["kind"], "desc": desc, "text": txt, "fixed": True})
     ctx.extra["mutants"] = kinds_hist
 
-    # --- differential: model (code as it stands) vs real, on every document
+    # --- which variant of the validator does the tree implement?  (Model/XmlSchema.lean has both: aliasRec = false is the
+    # code as it stands today -- frame/replicate subtrees are admitted unvalidated; aliasRec = true validates them.)  Decided by
+    # the canonical witness; the differential below then ties THAT variant to the real code on every document.
+    wit = '<mujoco>\n<worldbody>\n<frame>\n<geom size="1" zzbogus="2"/>\n</frame>\n</worldbody>\n</mujoco>\n'
+    _, wo, _ = ctx.run_lines([impl], ["check 0 ( mujoco 1 0 ) # " + wit.encode().hex()])
+    mode = 1 if (wo and wo[0].startswith("err ") and "unrecognized attribute" in wo[0]) else 0
+    ctx.extra["validator_variant"] = ("aliasRec=true: frame/replicate subtrees are validated (theorem check_iff_conforms applies)" if mode else
+                                      "aliasRec=false: frame/replicate subtrees are NOT validated (theorems check_current_iff_conforms_weak, "
+                                      "check_current_iff_conforms_of_holeFree, current_code_accepts_nonconforming apply)")
+
+    # --- differential: model (the variant found above) vs real, on every document
     lines = []
     for d in docs:
         if d["root"] is None:
             continue
-        lines.append("check 0 " + " ".join(lean_doc(d["root"])) + " # " + d["text"].encode().hex())
+        lines.append("check %d " % mode + " ".join(lean_doc(d["root"])) + " # " + d["text"].encode().hex())
 
     def cmp(a, b):
         if b.startswith("ok"):
@@ -784,7 +805,7 @@ def run(ctx):
 
     def keyf(l):
         return " ".join(l.split(" # ")[0].split(" ")[2:40])
-    bad = ctx.differential("mjXSchema::Check (model, aliasRec=false) vs mj_parseXMLString", [drv], [impl], lines, keyf=keyf, cmp=cmp)
+    bad = ctx.differential("mjXSchema::Check (model, aliasRec=%s) vs mj_parseXMLString" % ("true" if mode else "false"), [drv], [impl], lines, keyf=keyf, cmp=cmp)
     for b in bad[:3]:
         b["line"] = b["line"][:300]
     if lines:
@@ -873,7 +894,8 @@ def fuzz(ctx, texts):
                 else:
                     j = rng.randrange(len(b))
                     m[i:i] = b[j:j + rng.randint(1, 12)]
-            lines.append("doc " + bytes(m).hex())
+            # parse only (mj_parseXMLString): the compile step of mj_loadXML is engine/user code, outside this property's code
+            lines.append("check 0 ( fuzz 1 0 ) # " + bytes(m).hex())
     env = {"ASAN_OPTIONS": "detect_leaks=0:abort_on_error=0:exitcode=77", "UBSAN_OPTIONS": "halt_on_error=1:exitcode=78"}
     rc, out, err = ctx.run_lines([impl], lines, env=env, timeout=3000)
     ctx.extra["asan_fuzz"] = {"documents": len(lines), "answered": len(out), "exit": rc,
@@ -883,7 +905,7 @@ def fuzz(ctx, texts):
         i = min(len(out), len(lines) - 1)
         ctx.oracle_failure("c37:sanitizer-report-in-reader-or-standin",
                            "ASan/UBSan build: the process stopped on a mutated document (could be the tinyxml2 stand-in or "
-                           "src/xml): " + err[-400:], {"xml_hex": lines[i][4:], "stderr": err[-1500:]})
+                           "src/xml): " + err[-400:], {"xml_hex": lines[i].split(" # ")[1], "stderr": err[-1500:]})
 
 
 if __name__ == "__main__":
